@@ -501,7 +501,7 @@ func main() {
 			}
 			t.Par(len(cfgs), func(ci int) {
 				cfgA := cfgs[ci]
-				for _, history := range []string{"accepted", "accepted-then-refused", "refused", "declined-list"} {
+				for _, history := range []string{"accepted", "accepted-then-refused", "refused", "declined-list", "ill-valued-with-parameters"} {
 					for _, offA := range []P{{}, {ServerMaxWindowBits: 10, ClientMaxWindowBits: 1}} {
 						history, offA := history, offA
 						t.DoN(int64(len(cfgs)*len(ps)), func() string {
@@ -518,12 +518,19 @@ func main() {
 										e.Negotiate(bogus)
 									case "refused":
 										e.Negotiate(bogus)
+									case "ill-valued-with-parameters":
+										bad := (P{ServerNoContextTakeover: true, ClientMaxWindowBits: 12}).Option()
+										bad.Parameters.Set([]byte("server_max_window_bits"), []byte("99"))
+										e.Negotiate(bad)
 									case "declined-list":
 										e.Negotiate(offA.Option())
 										e.Negotiate(offA.Option())
 										e.Negotiate(offA.Option())
 									}
 									e.Reset()
+									if got, ok := e.Accepted(); ok || got != (P{}) {
+										return explore.Failf("Extension-Reset-leaves-state:"+history, "Accepted() right after Reset reports %+v, %v", got, ok)
+									}
 									e.Parameters = cfgB
 									a, aerr := e.Negotiate(offB.Option())
 									f := &wsflate.Extension{Parameters: cfgB}
